@@ -756,6 +756,13 @@ namespace fastscapelib
         m_reorder_stack.reserve(nbasins);
         m_reorder_stack.clear();
 
+        // the tree is actually a forest when some basins cannot be reached from
+        // the root (e.g., basins enclosed by masked nodes): the basins of each
+        // remaining tree are visited from one of them taken as local root, so
+        // that every tree edge gets oriented
+        std::vector<std::uint8_t> visited(nbasins, 0);
+        size_type next_root = 0;
+
         m_reorder_stack.push_back({ m_root,
                                     m_root,
                                     std::numeric_limits<data_type>::min(),
@@ -774,6 +781,7 @@ namespace fastscapelib
             data_type pass_elevation, parent_pass_elevation;
             std::tie(node, parent, pass_elevation, parent_pass_elevation) = m_reorder_stack.back();
             m_reorder_stack.pop_back();
+            visited[node] = 1;
 
 
             for (size_t i = m_nodes_connects_ptr[node];
@@ -813,6 +821,26 @@ namespace fastscapelib
                                                 node,
                                                 std::max(edg.pass_elevation, pass_elevation),
                                                 pass_elevation });
+                }
+            }
+
+            if (m_reorder_stack.empty())
+            {
+                // continue with the next tree of the forest, if any
+                while (next_root < nbasins && visited[next_root])
+                {
+                    ++next_root;
+                }
+                if (next_root < nbasins)
+                {
+                    if (m_keep_order)
+                    {
+                        m_parent_basins[next_root] = next_root;
+                    }
+                    m_reorder_stack.push_back({ next_root,
+                                                next_root,
+                                                std::numeric_limits<data_type>::min(),
+                                                std::numeric_limits<data_type>::min() });
                 }
             }
         }
